@@ -44,7 +44,16 @@ def make_layer(rng, dims, param="raw"):
     P = rf ** dims * C
     if conn == "random-unique" and 2 ** depth > P * (P - 1) // 2:
         conn = "random"
-    kw = dict(in_dim=tuple(n), device="cpu", channels=C, num_kernels=K, tree_depth=depth, receptive_field_size=rf,
+    rf_arg = rf
+    rfs = [rf] * dims
+    if dims == 3 and rng.random() < 0.5:
+        rfs = [rng.randrange(1, min(3, v + 2 * pad) + 1) for v in n]
+        rf_arg = tuple(rfs)
+        stride = rng.randrange(1, min(rfs) + 1)
+        P = int(np.prod(rfs)) * C
+        if conn == "random-unique" and 2 ** depth > P * (P - 1) // 2:
+            conn = "random"
+    kw = dict(in_dim=tuple(n), device="cpu", channels=C, num_kernels=K, tree_depth=depth, receptive_field_size=rf_arg,
               stride=stride, padding=pad, connections=conn)
     if dims == 2:
         l = LogicConv2d(parametrization=param, weight_init="random", **kw)
@@ -54,7 +63,7 @@ def make_layer(rng, dims, param="raw"):
             for lv in l.tree_weights:
                 for w in lv:
                     w.copy_(torch.randn_like(w))
-    geo = dict(dims=dims, in_dim=n, padding=pad, rf=rf, stride=stride, channels=C, kernels=K, depth=depth, connections=conn)
+    geo = dict(dims=dims, in_dim=n, padding=pad, rf=rf, rfs=rfs, stride=stride, channels=C, kernels=K, depth=depth, connections=conn)
     return l, geo
 
 
@@ -62,7 +71,7 @@ def per_window(l, geo, x, mode, weights=None):
     """Reference: out[k][pos] = tree_k(window at pos of the zero-padded x), from kernel_pairs and the geometry only."""
     dims, n, pad, rf, s = geo["dims"], geo["in_dim"], geo["padding"], geo["rf"], geo["stride"]
     C, K, depth = geo["channels"], geo["kernels"], geo["depth"]
-    outs = [(v + 2 * pad - rf) // s + 1 for v in n]
+    outs = [(v + 2 * pad - r) // s + 1 for v, r in zip(n, geo["rfs"])]
     pa, pb = [t.tolist() for t in l.kernel_pairs]
     xp = np.zeros([C] + [v + 2 * pad for v in n], dtype=np.float64)
     xp[(slice(None),) + tuple(slice(pad, pad + v) for v in n)] = x
@@ -110,7 +119,7 @@ def run(ck: Check):
         except Exception as e:
             ck.disagree("constructor raised on a valid geometry", {"t": t}, observed=repr(e), signature={"what": "ctor"})
             continue
-        outs = [(v + 2 * geo["padding"] - geo["rf"]) // geo["stride"] + 1 for v in geo["in_dim"]]
+        outs = [(v + 2 * geo["padding"] - r) // geo["stride"] + 1 for v, r in zip(geo["in_dim"], geo["rfs"])]
         npos = int(np.prod(outs))
         ck.case(dict(geo, pairs=hash(str(l.kernel_pairs[0].tolist())) % 10 ** 8), nontrivial=npos > 1, kind=f"conv{dims}d")
         sig = {"dims": dims}
@@ -137,7 +146,7 @@ def run(ck: Check):
         for rel in (l.kernel_pairs[0].tolist(), l.kernel_pairs[1].tolist()):
             for k in rel:
                 for g in k:
-                    if any(not (0 <= v < geo["rf"]) for v in g[:-1]) or not (0 <= g[-1] < geo["channels"]):
+                    if any(not (0 <= v < r) for v, r in zip(g[:-1], geo["rfs"])) or not (0 <= g[-1] < geo["channels"]):
                         ck.disagree("kernel pair lies outside the receptive field", dict(geo, pair=g), signature=dict(sig, what="field"))
         # (ii) forward vs per-window
         weights = [[w.detach().double().numpy() for w in lv] for lv in l.tree_weights]   # [level][node] -> (K,16)
@@ -190,7 +199,7 @@ def run(ck: Check):
         evs = []
         for i, (geo, rel, ab) in enumerate(chunk):
             cs = (f"{{| cv_dims := {nets._nl(geo['in_dim'])}; cv_C := {geo['channels']}; cv_K := {geo['kernels']}; cv_depth := {geo['depth']}; "
-                  f"cv_rf := {nets._nl([geo['rf']] * geo['dims'])}; cv_stride := {geo['stride']}; cv_pad := {geo['padding']}; "
+                  f"cv_rf := {nets._nl(geo['rfs'])}; cv_stride := {geo['stride']}; cv_pad := {geo['padding']}; "
                   f"cv_rel_a := []; cv_rel_b := []; cv_gates := [] |}}")
             relc = "[" + "; ".join("[" + "; ".join(f"({nets._nl(g[:-1])}, {g[-1]})" for g in k) + "]" for k in rel) + "]"
             txt += f"Eval vm_compute in sliding_indices {cs} {relc}.\n"
